@@ -3,7 +3,9 @@ import CalicoVerif.Model.C43
 /-! Driver for C43.  One case = one L3RouteResolver + one route manager (vxlan | ipip | no-encap).
 Ops
   `new <me> <pt> <eth0Addr>`
-  `node <n> <addr> <len> <ipip> <vxlan> <wg>` | `nodedel <n>`
+  `node <n> <addr> <len> <ipip> <vxlan> <wg> <addr6> <len6> <vxlan6> <wg6>` | `nodedel <n>`
+  (addresses are decimal numbers; an IPv6 CIDR address token is written `v<number>`; a node with
+  neither address is no node at all)
   `pool <addr> <len> <ipipMode> <vxlanMode> <nat> <lbOnly>` | `pooldel <addr> <len>`
   `block <addr> <len> <aff|-> <ord:host,ord:-,…|->` | `blockdel <addr> <len>`
   `wep <host> <id> <ip,ip,…|->`
@@ -20,7 +22,7 @@ structure DS where
 
 def b01 (b : Bool) : String := if b then "1" else "0"
 
-def showCidr (c : Cidr) : String := s!"{c.addr}/{c.len}"
+def showCidr (c : Cidr) : String := (if c.v6 then "v" else "") ++ s!"{c.addr}/{c.len}"
 
 def showEvent : Event → String
   | .remove d => s!"R:{showCidr d}"
@@ -75,11 +77,28 @@ def parseAllocs (w : String) : Option (List (Nat × Option Nat)) :=
       pure (o, h)
     | _ => none)
 
-def maskCidr (a l : Nat) : Cidr := ⟨(a / 2 ^ (32 - l)) * 2 ^ (32 - l), l⟩
+def maskCidr (v6 : Bool) (a l : Nat) : Cidr :=
+  let w := if v6 then 128 else 32
+  ⟨(a / 2 ^ (w - l)) * 2 ^ (w - l), l, v6⟩
+
+/-- a CIDR from its address token (`v…` = IPv6) and length. -/
+def parseCidr (a l : String) : Option Cidr :=
+  match l.toNat? with
+  | none => none
+  | some l =>
+    if a.startsWith "v" then
+      match (a.drop 1).toString.toNat? with
+      | some x => if l ≤ 128 then some ⟨x, l, true⟩ else none
+      | none => none
+    else
+      match a.toNat? with
+      | some x => if l ≤ 32 then some ⟨x, l, false⟩ else none
+      | none => none
 
 def resolverOp (d : DS) (op : Op) : DS × String :=
   let (s', evs) := d.s.step op
-  let m' := evs.foldl RM.onEvent d.m
+  -- the managers of the harness are IPv4 managers: they skip IPv6 route messages (route_mgr.go OnUpdate)
+  let m' := (evs.filter (fun e => !e.dst.v6)).foldl RM.onEvent d.m
   ({ s := s', m := m', sent := applyEvents d.sent evs }, showEvents evs)
 
 def stepDS (d : DS) (line : String) : DS × String :=
@@ -91,34 +110,37 @@ def stepDS (d : DS) (line : String) : DS × String :=
         ({ s := { me := me }, m := { pt := pt, me := me, eth0Addr := eth }, sent := [] }, "ok")
       else (d, "bad-op")
     | _ => (d, "bad-op")
-  | ["node", n, a, l, ipip, vx, wg] =>
-    match nats [n, a, l, ipip, vx, wg] with
-    | some [n, a, l, ipip, vx, wg] =>
-      if l > 32 then (d, "bad-op") else
-      let cidr : Cidr := if a == 0 then ⟨0, 0⟩ else maskCidr a l
-      resolverOp d (.node n (some { v4Addr := a, cidr := cidr, ipip := ipip, vxlan := vx, wg := wg }))
+  | ["node", n, a, l, ipip, vx, wg, a6, l6, vx6, wg6] =>
+    match nats [n, a, l, ipip, vx, wg, a6, l6, vx6, wg6] with
+    | some [n, a, l, ipip, vx, wg, a6, l6, vx6, wg6] =>
+      if l > 32 || l6 > 128 then (d, "bad-op") else
+      if a == 0 && a6 == 0 then resolverOp d (.node n none) else
+      let cidr : Cidr := if a == 0 then Cidr.zero false else maskCidr false a l
+      let cidr6 : Cidr := if a6 == 0 then Cidr.zero true else maskCidr true a6 l6
+      resolverOp d (.node n (some { v4Addr := a, cidr := cidr, ipip := ipip, vxlan := vx, wg := wg,
+                                    v6Addr := a6, cidr6 := cidr6, vxlan6 := vx6, wg6 := wg6 }))
     | _ => (d, "bad-op")
   | ["nodedel", n] =>
     match n.toNat? with
     | some n => resolverOp d (.node n none)
     | none => (d, "bad-op")
   | ["pool", a, l, im, vm, nat, lb] =>
-    match nats [a, l, im, vm, nat, lb] with
-    | some [a, l, im, vm, nat, lb] =>
-      if l > 32 || im > 2 || vm > 2 || nat > 1 || lb > 1 then (d, "bad-op") else
-      resolverOp d (.pool ⟨a, l⟩ (some (poolOf im vm (nat == 1) (lb == 1))))
-    | _ => (d, "bad-op")
+    match parseCidr a l, nats [im, vm, nat, lb] with
+    | some c, some [im, vm, nat, lb] =>
+      if im > 2 || vm > 2 || nat > 1 || lb > 1 then (d, "bad-op") else
+      resolverOp d (.pool c (some (poolOf im vm (nat == 1) (lb == 1))))
+    | _, _ => (d, "bad-op")
   | ["pooldel", a, l] =>
-    match nats [a, l] with
-    | some [a, l] => resolverOp d (.pool ⟨a, l⟩ none)
+    match parseCidr a l with
+    | some c => resolverOp d (.pool c none)
     | _ => (d, "bad-op")
   | ["block", a, l, aff, allocs] =>
-    match nats [a, l], parseOptNat aff, parseAllocs allocs with
-    | some [a, l], some aff, some allocs => resolverOp d (.block ⟨a, l⟩ aff allocs)
+    match parseCidr a l, parseOptNat aff, parseAllocs allocs with
+    | some c, some aff, some allocs => resolverOp d (.block c aff allocs)
     | _, _, _ => (d, "bad-op")
   | ["blockdel", a, l] =>
-    match nats [a, l] with
-    | some [a, l] => resolverOp d (.blockDel ⟨a, l⟩)
+    match parseCidr a l with
+    | some c => resolverOp d (.blockDel c)
     | _ => (d, "bad-op")
   | ["wep", h, i, ips] =>
     match nats [h, i], parseList ips with
